@@ -1,5 +1,6 @@
 import XalanModel.C15.KeysProofs
 import XalanModel.C15.StripProofs
+import XalanModel.C15.StripValues
 import XalanModel.C15.ConcreteProofs
 import XalanModel.Generated.C15_FunctionKey
 import XalanModel.Generated.C15_ExecContext
@@ -114,6 +115,43 @@ example : Tree.StripOK (fun n : Nat => n == 5) exTree ∧
   refine ⟨?_, by decide⟩
   simp [exTree, Tree.StripOK, Tree.StripOKForest, Tree.self, Tree.attrs, Tree.kids]
 
+/-- **key() and xsl:strip-space, the values of `use` included** (`XalanModel/C15/StripValues.lean`; string-value
+transcribed as in C13's `Node.textOf / strVal`): the table built by walking the *parsed* tree — match strip-aware
+(`hm`: a stripped node never matches, any other node matches iff its image matches in the stripped tree), `use` one of
+`.`, `*`, `text()`, `@*` evaluated with the strip-aware node tests and the strip-aware string-value — answers every
+lookup with the stripped images, in the same order, of the nodes the specification selects on the *stripped* tree with
+`use` evaluated plainly.  E.g. an element containing stripped text is filed under its stripped string-value. -/
+theorem key_spec_strip_values (idx : ν → Nat) (isDoc : ν → Bool) (vw : NodeView ν) (s : ν → Bool) (av : ν → String)
+    (decls : List (StripDecl κ ν)) (t : Tree ν)
+    (hidx : t.docOrder.Pairwise (fun a b => idx a < idx b)) (hdoc : DocMin idx isDoc t.docOrder)
+    (hs : Tree.StripOK s t)
+    (hm : ∀ d ∈ decls, ∀ u : Tree ν, d.matchS u = (!s u.self && d.matchP (Tree.strip s u)))
+    (name : κ) (value : String) :
+    ((KeyTable.create (fun u : Tree ν => idx u.self) (fun u => isDoc u.self) (Tree.annot t)
+        (decls.map (StripDecl.parsed vw s av))).getNodeSetByKey name value).map (List.map (Tree.strip s)) =
+      if declared (decls.map (StripDecl.stripped vw av)) name then
+        some ((Tree.annot (Tree.strip s t)).docOrder.filter
+          (hasKey (decls.map (StripDecl.stripped vw av)) name value))
+      else none :=
+  key_strip_values idx isDoc vw s av decls t hidx hdoc hs hm name value
+
+section StripExample
+/-- `<a> <b> </b>x</a>` as nodes 0 (document) 1 `a` 2 `" "` 3 `b` 4 `" "` 5 `"x"`; whitespace of `a` is stripped (node 2) -/
+def wsTree : Tree Nat := Tree.mk 0 [] [Tree.mk 1 [] [Tree.mk 2 [] [], Tree.mk 3 [] [Tree.mk 4 [] []], Tree.mk 5 [] []]]
+def wsView : NodeView Nat :=
+  { text := fun n => if n == 2 || n == 4 then some " " else if n == 5 then some "x" else none
+    other := fun _ => none
+    isElem := fun n => n == 1 || n == 3 }
+def wsStrip (n : Nat) : Bool := n == 2
+
+/-- the element `a` is filed under `" x"` (its string-value without the stripped node 2, with `b`'s kept space) and
+`text()` of `a` is `"x"` only -/
+example : Tree.strVal wsView wsStrip (Tree.mk 1 [] [Tree.mk 2 [] [], Tree.mk 3 [] [Tree.mk 4 [] []], Tree.mk 5 [] []]) = " x" ∧
+    evalStripUse wsView wsStrip (fun _ => "") .childText
+      (Tree.mk 1 [] [Tree.mk 2 [] [], Tree.mk 3 [] [Tree.mk 4 [] []], Tree.mk 5 [] []]) = .nodeset ["x"] ∧
+    (Tree.strip wsStrip wsTree).docOrder = [0, 1, 3, 4, 5] := by decide
+end StripExample
+
 omit [DecidableEq κ] [DecidableEq δ] in
 /-- **Which tree answers** (`getKeyNode`): from any context node — in a source document (`getOwnerDocument()`) or
 in a result tree fragment (the climb to the `DOCUMENT_FRAGMENT_NODE`) — the key node is the top of the tree the
@@ -225,6 +263,38 @@ theorem key_context_document_spec (env : Env κ ν δ) (hidx : env.Indexed) (ski
   show (functionKey env skipEmpty [] c.contextDoc c.name c.arg).2 = _
   rw [(functionKey_eq env skipEmpty [] (cacheOK_nil env) c.contextDoc c.name c.arg).2,
     callAnswer_spec env hidx skipEmpty c.contextDoc c.name c.arg]
+
+/-- **Only nodes of the context node's document**: whatever the history, the current node and the documents the
+argument's nodes come from (a node-set argument contributes string values only), the answer of a call is a sub-list
+of the document order of the *context node's* document — nodes of other documents never appear, the order is
+document order, there are no duplicates. -/
+theorem key_result_of_context_document (env : Env κ ν δ) (hidx : env.Indexed) (skipEmpty : Bool)
+    (history : List (XCall κ δ)) (c : XCall κ δ) (l : List ν)
+    (h : (runXCalls env ⟨XalanModel.Generated.C15_ExecContext.qnameUsesContext,
+        XalanModel.Generated.C15_ExecContext.stringUsesContext⟩ skipEmpty [] (history ++ [c])).getLast? = some (some l)) :
+    l.Sublist (env.doc c.contextDoc).docOrder := by
+  rw [key_context_document_spec env hidx] at h
+  simp only [List.map_append, List.map_cons, List.map_nil, List.getLast?_append, List.getLast?_singleton,
+    Option.some_or] at h
+  simp only [Option.some.injEq] at h
+  unfold callSpec at h
+  split at h
+  · simp only [Option.some.injEq] at h; subst h; exact List.nil_sublist _
+  · split at h
+    · simp only [Option.some.injEq] at h; subst h; exact List.filter_sublist
+    · cases h
+
+/-- **Context nodes from several documents in one expression** (e.g. a predicate applied to a node-set that spans
+the main source, `document()` loads and result tree fragments): each evaluation answers the specification for the
+document of its own context node; the whole result is the per-document lookups side by side. -/
+theorem key_multi_context_spec (env : Env κ ν δ) (hidx : env.Indexed) (skipEmpty : Bool) (contextDocs : List δ)
+    (currentDoc : δ) (prefixed : Bool) (name : κ) (arg : KeyArg) :
+    runXCalls env ⟨XalanModel.Generated.C15_ExecContext.qnameUsesContext,
+        XalanModel.Generated.C15_ExecContext.stringUsesContext⟩ skipEmpty []
+        (contextDocs.map fun d => ⟨d, currentDoc, prefixed, name, arg⟩) =
+      contextDocs.map fun d => callSpec env.keyDeclarations (env.doc d) name (effValues skipEmpty arg) := by
+  rw [key_context_document_spec env hidx, List.map_map]
+  rfl
 
 /-- **One key() call on any valid cache** (every cached table being the one the constructor builds for its
 document — true of the empty cache and preserved by every call): the answer is the specification applied to the
